@@ -94,6 +94,23 @@ def _make_fn(h, twin):
     return fn, src
 
 
+def _plain_str(x):
+    """a builtin str for a failure text that may have been assembled from symbolic pieces"""
+    from crosshair.core import deep_realize, realize
+
+    for f in (deep_realize, realize):
+        try:
+            y = f(x)
+            if type(y) is str:
+                return y
+        except Exception:
+            pass
+    try:
+        return "".join(chr(int(realize(ord(c)))) for c in x)
+    except Exception:
+        return "<failure text could not be made concrete>"
+
+
 def run_case(h, args, twin):
     from crosshair.core import deep_realize
     from crosshair.util import NotDeterministic
@@ -130,10 +147,7 @@ def run_case(h, args, twin):
         real = [_js(x) for x in deep_realize(tuple(args))]
     except Exception as e:  # pragma: no cover
         real = ["<unrealizable %r>" % (e,)]
-    try:
-        reason = str(deep_realize(r))
-    except Exception:
-        reason = "<reason>"
+    reason = _plain_str(r)
     STATS["fail"] = {"args": real, "reason": reason}
     if rt.EXTRA:
         try:
@@ -310,7 +324,7 @@ def main():
         if spec.get("quit"):
             break
         res = run_harness(mod, spec)
-        print("VPRESULT " + json.dumps(res), flush=True)
+        print("VPRESULT " + json.dumps(res, default=repr), flush=True)
 
 
 if __name__ == "__main__":
